@@ -41,7 +41,7 @@ CLAIMED = {
 
  'C01': dict(technique='Lean 4 proof over regenerated argument tables and key constants (partition of the re-synthesised command line, hashed coverage, unhashed policy by decide over the whole table, L1 decision table, L0 transparency over all histories) + differential correspondence (real parse_arguments / generate_compile_commands, real get_cached_or_compile) + end-to-end monitor against direct gcc/clang runs',
     text='regen_partition, hashed_covers, regen_complete (every parse), unhashed_policy and tables_names_distinct (decide over the tables regenerated from gcc.rs/clang.rs on every run), hit_runs_nothing (whole L1 alphabet), transparent (all histories, under A1) and never_replayed_for_different_request (via C02) are proved; the parser model is diffed against the real gcc/clang parsers on 20 000 command lines per run, the decision table against the real get_cached_or_compile exhaustively, and real sccache+gcc/clang histories are compared with direct compiles.',
-    note='Trusted: Lean kernel, translator, Model/Args.lean, ServerL1.lean, Spec.lean (tied by h_args/h_l1), A1 (compilers are functions of the hashed components: tested by the system monitor, not proved). Known findings F-C01-b (lossy non-UTF-8 values), F-C01-d (server umask 027 changes output modes). Not modelled: -Xclang second pass.',
+    note='Trusted: Lean kernel, translator, Model/Args.lean, ServerL1.lean, Spec.lean (tied by h_args/h_l1), A1 (compilers are functions of the hashed components: tested by the system monitor, not proved). Known findings F-C01-b (lossy non-UTF-8 values), F-C01-e, F-C01-k, F-C01-r, F-C01-s; F-C01-d (server umask 027) is fixed. Not modelled: -Xclang second pass.',
     ref='DESIGN.md section 4 C01, Appendix A.6, B.12, B.14, B.15'),
  'C03': dict(technique='Lean 4 proof (key determinism, allow-list filter, L0 repeat_hits over all histories, reopen keeps files, rustc key permutation invariance) + byte-exact key correspondence + end-to-end repeat monitor with server restarts',
     text='key_deterministic, unrelated_env_irrelevant, repeat_hits (any history of other requests, faults, restarts), reopen_preserves and rust_key_perm are proved; real-server histories with reverts, output-path and unrelated-env changes and restarts must classify every repeated successful request as a hit with zero compiler runs; after an entry was damaged behind the server (truncated, overwritten, deleted, flipped byte) the next request recompiles and stores and the one after that must hit again.',
